@@ -90,6 +90,7 @@ def build(src):
     ins_rules = [Rule("D6.overload-forward", r"return\s+s\s*<<\s*t\(\);", "return ins_val_lv(s, nitro_call_lazy(t));"),
                  Rule("D6.overload-forward-rv", r"return\s+std::move\(s\)\s*<<\s*t\(\);", "{ ins_val_rv(ret, s, nitro_call_lazy(t)); return; }"),
                  Rule("D6.stream-bool", r"\bif\s*\(\s*s\s*\)", "if (ss_bool(s))"),
+                 Rule("D6.stream-bool", r"\bif\s*\(\s*!\s*s\s*\)", "if (!ss_bool(s))"),
                  Rule("D6.stream-insert-lazy", r"\bs\.sstr\(\)\s*<<\s*t\(\);", "nitro_sbuf_put(ss_sstr(s), nitro_call_lazy(t));"),
                  Rule("D6.stream-insert", r"\bs\.sstr\(\)\s*<<\s*t;", "nitro_sbuf_put(ss_sstr(s), t);")]
     lv_ret = Rule("D3.return-ref", r"return\s+s;", "return s;")
